@@ -7,7 +7,7 @@ import c02, c07, consume
 
 CONFIGS_QUICK = ["F_all", "F_nool"]  # every configuration whose cfg-gated code the property depends on
 CONFIGS_THOROUGH = ["F_all", "F_nool"]
-TECHNIQUE = 'static analysis: sibling agreement of the two XmlRead impls (call sequences per path), constructor configuration equality, chunk-independence summaries, owned/borrowed arm agreement of in-place trimming, scanner chunk-boundary rows (C01) re-evaluated'
+TECHNIQUE = 'static analysis: sibling agreement of the two XmlRead impls (call sequences per path), constructor configuration equality, chunk-independence summaries, owned/borrowed arm agreement of in-place trimming, scanner chunk-boundary rows (C01) re-evaluated, CowRef arm agreement (Input vs Slice/Owned) wherever the deserializer matches on a CowRef'
 EXPLANATION = (
     "Sibling agreement of the two XmlRead implementations (SliceReader, IoReader): `next` is the same loop (read one event, "
     "StartTrimmer::trim, return on Some) differing only by buf.clear() before the read and into_owned() after it; "
